@@ -117,24 +117,45 @@ def job_words(prefix, maxlen):
 RUNS = ('TagLine', 'Comment', 'Empty')
 
 
+def _table():
+    """Transition function extracted from the RUNNING parser (never from the text of parser.py, which may be restructured)."""
+    from .c02 import setup
+    spec, T, info = setup()
+    return T, set(map(tuple, info['uses_lookahead']))
+
+
 def la_states():
-    tab = TB.static_table('python')['states']
-    return sorted(s for s, st in tab.items() if any(a['la'] is not None for a in st['alts']))
+    T, uses = _table()
+    return sorted({s for (s, k) in uses})
+
+
+_WITNESS = None
 
 
 def kind_witness():
-    """Shortest kind path to every state of the Python table."""
-    tab = TB.static_table('python')['states']
+    """Shortest kind path to every state, by BFS over the extracted transition function."""
+    global _WITNESS
+    if _WITNESS is not None:
+        return _WITNESS
+    T, uses = _table()
     seen = {0: ()}
     order = [0]
     i = 0
     while i < len(order):
         s = order[i]
         i += 1
-        for alt in tab.get(s, {'alts': []})['alts']:
-            if alt['tok'] != 'EOF' and alt['to'] not in seen:
-                seen[alt['to']] = seen[s] + (alt['tok'],)
-                order.append(alt['to'])
+        for k in KINDS:
+            for c in ('N', 'S', 'E'):
+                v = T.get((s, k, c))
+                if not v or v[0] is None or v[2] or v[0] in seen:
+                    continue
+                if c != 'N' and (s, k) not in uses:
+                    continue
+                # a look-ahead class other than N needs a matching continuation: the witness is only used as a prefix, followed by
+                # every continuation, so record the plain kind path
+                seen[v[0]] = seen[s] + (k,)
+                order.append(v[0])
+    _WITNESS = seen
     return seen
 
 
